@@ -61,16 +61,27 @@ void FeatureChecker::visitEdge(edge_t& edge)
 
 void FeatureChecker::visitGuard(expression_t& guard)
 {
+    if (guard.empty())
+        return;
     switch (guard.get_kind()) {
     case Constants::LT:
     case Constants::LE:
     case Constants::EQ:
+    case Constants::NEQ:
+    case Constants::GE:
+    case Constants::GT:
+        // a rate equation (x' == e) is judged by isRateDisallowedInSymbolic
+        if (guard.get(0).get_kind() == Constants::RATE || guard.get(1).get_kind() == Constants::RATE)
+            break;
         for (size_t i = 0; i < guard.get_size(); ++i) {
             if (guard.get(i).uses_fp())
                 supported_methods.symbolic = false;
         }
     default: break;
     }
+    // the comparison may sit in any conjunct, disjunct or quantifier body
+    for (size_t i = 0; i < guard.get_size(); ++i)
+        visitGuard(guard.get(i));
 }
 
 void FeatureChecker::visitAssignment(expression_t& ass)
@@ -95,6 +106,7 @@ void FeatureChecker::visitLocation(location_t& location)
         return;
     if (isRateDisallowedInSymbolic(invariant))
         supported_methods.symbolic = false;
+    visitGuard(location.invariant);
 }
 
 /**
